@@ -1,5 +1,6 @@
 SPECIFICATION Spec
-CONSTANTS Family = "thr"  MaxTrials = 1  MaxStep = 4  MaxVal = 1  MaxReports = 5  WithNaN = TRUE  WithFail = FALSE
+CONSTANTS Family = "thr"  MaxTrials = 1  MaxStep = 4  MaxVal = 1  MaxReports = 5  WithNaN = TRUE
+          FinishStates = {"COMPLETE"}
 INVARIANT AlgoWithinEnvelope
 INVARIANT EnvelopeSatisfiable
 INVARIANT CheckStepIsCode
